@@ -741,8 +741,13 @@ class AsyncFIXConnection:
             gap_fill_begin = begin_seq_no
 
             for enc_msg in journal_replay_msgs:
-                replay_msg, _, _ = self._codec.decode(enc_msg, silent=False)
-                msg_seq_num = int(replay_msg[FTag.MsgSeqNum])
+                try:
+                    replay_msg, _, _ = self._codec.decode(enc_msg, silent=False)
+                    msg_seq_num = int(replay_msg[FTag.MsgSeqNum])
+                except Exception:
+                    # journaled message is not readable, it's covered by gap fill
+                    self.log.exception("journaled message is not decodable")
+                    continue
 
                 is_sess_msg = replay_msg[FTag.MsgType] in noreply_msgs
                 is_replayed = not (
@@ -766,25 +771,13 @@ class AsyncFIXConnection:
                 if gap_fill_begin < msg_seq_num:
                     await self._send_gap_fill(gap_fill_begin, msg_seq_num)
 
-                # and then resent the replayMsg
-                replay_msg.set(FTag.PossDupFlag, "Y", replace=True)
-                if FTag.OrigSendingTime not in replay_msg:
-                    replay_msg[FTag.OrigSendingTime] = replay_msg[FTag.SendingTime]
-                del replay_msg[FTag.MsgType]
-                del replay_msg[FTag.BeginString]
-                del replay_msg[FTag.BodyLength]
-                del replay_msg[FTag.SendingTime]
-                del replay_msg[FTag.SenderCompID]
-                del replay_msg[FTag.TargetCompID]
-                del replay_msg[FTag.CheckSum]
-                try:
-                    await self._send_encoded(replay_msg, journal=False)
-                except FIXMessageError:
-                    # Message can't be rebuilt from its decoded form (e.g. repeating
-                    #   group which is not known by protocol), resend journaled fields
-                    await self._send_raw(
-                        self._codec.reframe_possdup(enc_msg).encode("utf-8")
-                    )
+                # and then resent the replayMsg: the journaled fields as they were
+                #   sent (decoded form may differ: repeating groups / nesting which
+                #   are not known by protocol, empty groups) + PossDupFlag=Y,
+                #   OrigSendingTime, new SendingTime
+                await self._send_raw(
+                    self._codec.reframe_possdup(enc_msg).encode("utf-8")
+                )
 
                 gap_fill_begin = msg_seq_num + 1
 
